@@ -104,7 +104,7 @@ def build_shadow(log=None):
         lock.close()
 
 
-def run_case(driver, case, timeout=120):
+def run_case(driver, case, timeout=30):
     """returns outcome dict (or {'error':..})"""
     ok, secs, exe = build_shadow()
     if not ok:
